@@ -26,7 +26,7 @@ def _explore_job(job):
     try:
         tree = X.explore(d, env, lang=lang, tok=tok, rng=rng)
         return {"ok": True, "tree": tree.to_json(0), "sched": _schedules(tree), "truncated": tree.truncated,
-                "leaves": tree.leaves, "d": d, "env": env, "lang": lang, "tok": tok}
+                "leaves": tree.leaves, "fins": tree.fins, "d": d, "env": env, "lang": lang, "tok": tok}
     except Exception as e:  # harness failure, not a verdict
         import traceback
         return {"ok": False, "err": "%s: %s\n%s" % (type(e).__name__, e, traceback.format_exc()), "d": d}
@@ -82,6 +82,9 @@ class Run(object):
         self.other_clause_failures = {}
         self.samples = []
         self.extra = {}
+        self.groups = []
+        self.gverdicts = []
+        self.gkf = []
         self.mc_states = 0
         self.mc_transitions = 0
         self.divergences = 0
@@ -126,6 +129,30 @@ class Run(object):
                 self.extra.setdefault("divergence_samples", []).extend(mism[:3])
             self.add_results(rr, 12000, 16)
         return res
+
+    def add_groups(self, groups, chunk=4000):
+        """groups: [{gid, kind, def (tla shape), members:[{role, fin}], replay: {...}}] -> TLC Groups.tla"""
+        from . import tlc
+        for k in range(0, len(groups), chunk):
+            part = groups[k:k + chunk]
+            base = len(self.groups)
+            for i, g in enumerate(part):
+                g["gid"] = base + i + 1
+            self.groups.extend(part)
+            path = os.path.join(self.tmp, "groups_%d.json" % base)
+            with open(path, "w") as f:
+                json.dump([{x: g[x] for x in ("gid", "kind", "def", "members")} for g in part], f, separators=(",", ":"))
+            res = tlc.run("Groups", env={"TRACE_FILE": path}, workers=16, timeout=1500, workdir=self.tmp)
+            os.unlink(path)
+            if res["rc"] != 0 or res["distinct"] != len(part) + min(16, 16):
+                self.machinery.append("groups tlc rc=%s distinct=%s expected=%s\n%s" % (
+                    res["rc"], res["distinct"], len(part) + 16, res["out"][-3000:]))
+            self.states += res["distinct"]
+            self.transitions += res["states"]
+            for v in tlc.verdicts(res["out"], "G"):
+                self.gverdicts.append(v[1:])
+            for v in tlc.verdicts(res["out"], "GK"):
+                self.gkf.append(v[1:])
 
     def add_results(self, results, batch_nodes=12000, tlc_workers=16):
         from . import tlc
@@ -221,9 +248,32 @@ class Run(object):
             (known if hit else viol).append({"tid": tid, "node": node, "clause": clause,
                                              "kf": hit["signature"] if hit else None,
                                              "kfprop": hit["property"] if hit else None})
+        gsig = {}
+        for gid, sig in self.gkf:
+            gsig.setdefault(gid, set()).add(sig)
+        for gid, clause in self.gverdicts:
+            if not any(clause.startswith(c) for c in self.clauses):
+                self.other_clause_failures[clause] = self.other_clause_failures.get(clause, 0) + 1
+                continue
+            hit = None
+            for k in kfs:
+                if k.get("status", "open") == "open" and k["signature"] in gsig.get(gid, set()) and (
+                        clause == k["clause"] or clause in k.get("blast", [])):
+                    hit = k
+                    break
+            (known if hit else viol).append({"gid": gid, "clause": clause, "tid": "g%d" % gid, "node": 0,
+                                             "kf": hit["signature"] if hit else None,
+                                             "kfprop": hit["property"] if hit else None})
         return viol, known
 
     def replay_file(self, v):
+        if "gid" in v:
+            g = self.groups[v["gid"] - 1]
+            os.makedirs(os.path.join(OUT, "replays"), exist_ok=True)
+            path = os.path.join(OUT, "replays", "%s_%s_%d_g%d.json" % (self.prop, v["clause"], self.seed, v["gid"]))
+            with open(path, "w") as f:
+                json.dump({"property": self.prop, "clause": v["clause"], "group": g}, f, indent=1, default=str)
+            return path
         r = self.results[v["tid"] - 1]
         os.makedirs(os.path.join(OUT, "replays"), exist_ok=True)
         path = os.path.join(OUT, "replays", "%s_%s_%d_%d.json" % (self.prop, v["clause"], self.seed, v["tid"]))
@@ -254,6 +304,10 @@ class Run(object):
                 path = self.replay_file(v)
                 vfiles.append(path)
                 lines.append("VIOLATION property=%s replay=%s clause=%s" % (self.prop, path, v["clause"]))
+        if not self.samples and self.groups:
+            g = self.groups[0]
+            self.samples.append({"group": g["kind"], "def": g["def"]["name"],
+                                 "members": [{"role": m["role"], "sched": m.get("sched")} for m in g["members"]][:4]})
         if not self.samples and self.results:
             r = self.results[0]
             leaf = len(r["tree"]["nodes"])
@@ -261,13 +315,16 @@ class Run(object):
                                  "schedule": node_schedule(r, leaf)})
         distinct = len({json.dumps(r["d"]["tasks"], sort_keys=True) + json.dumps(r["env"], sort_keys=True)
                         for r in self.results if len(r["tree"]["nodes"]) > 4})
+        distinct += len({json.dumps([g["def"]["tasks"], [m.get("sched") for m in g["members"]]], sort_keys=True)
+                         for g in self.groups})
         cov = {
             "states": self.states + self.mc_states, "transitions": self.transitions + self.mc_transitions,
             "spec_b_states": self.mc_states, "trace_validation_states": self.states,
             "spec_vs_code_divergences": self.divergences,
-            "traces_validated_against_impl": self.trees,
+            "traces_validated_against_impl": self.trees + sum(len(g["members"]) for g in self.groups),
+            "groups_validated": len(self.groups),
             "steps_validated_against_impl": self.nodes,
-            "evaluations": self.nodes, "distinct_nontrivial": distinct,
+            "evaluations": self.nodes + len(self.groups), "distinct_nontrivial": distinct,
             "rule": rule, "samples": self.samples[:5],
             "truncated_trees": self.truncated,
             "clauses": list(self.clauses),
